@@ -21,7 +21,7 @@ def cases(tier):
     return fixfam.fix_cases(
         tier, rulesets_raw=("layout", "all", "format"), rulesets_yaml=("all",) if tier == "quick" else ("all", "format"),
         rulesets_fixtures=("all",) if tier == "quick" else ("all", "layout"), rulesets_fixture_gaps=("all",),
-    ) + fixfam.layout_product_cases(("all",))
+    ) + fixfam.layout_product_cases(("all",)) + span_cases()
 
 
 def oracle(one, lnt, text, lf, fixed, add, res):
@@ -38,4 +38,64 @@ def oracle(one, lnt, text, lf, fixed, add, res):
     return True
 
 
-run_case = fixfam.make_runner(oracle)
+_raw_runner = fixfam.make_runner(oracle)
+
+# a token (identifier, or quoted literal) that spans template slices, on its own mis-indented line / before a
+# double space, so that a layout fix touches the segment next to it
+SPAN_SHAPES = ["SELECT\n  @S@\nFROM t\n", "SELECT\n  '@S@'\nFROM t\n", "SELECT @S@  FROM t\n", "SELECT 1 AS @S@  ,2\n"]
+
+
+def span_cases():
+    from vf import corpus
+
+    ts = corpus.span_templates(3)
+    out = []
+    for i in range(0, len(ts), 16):
+        out.append({"k": "tplspan", "ts": ts[i : i + 16]})
+    return out
+
+
+def run_tplspan(case):
+    from vf import corpus, sq
+    from vf.props import c10
+
+    res = {"n": 0, "fails": [], "cls": set(), "stats": {}, "nontrivial": 0}
+    lnt = sq.linter("ansi", "jinja", rules="all", configs=sq.jinja_ctx_configs(corpus.SPAN_CTX))
+    for sp in case["ts"]:
+        for si, shape in enumerate(SPAN_SHAPES):
+            if "shape" in case and case["shape"] != si:
+                continue
+            res["n"] += 1
+            text = shape.replace("@S@", sp)
+            one = {"k": "tplspan", "ts": [sp], "shape": si}
+            try:
+                lf, fixed = fixfam.run_fix(lnt, text)
+            except Exception:
+                fixfam.bump(res, "fix_exception")
+                continue
+            if fixed is None or fixfam.has_parse_errors(lf.violations):
+                fixfam.bump(res, "input_not_clean")
+                continue
+            if fixed == text:
+                continue
+            after = lnt.lint_string(fixed)
+            bad = [v for v in after.violations if v.rule_code() in ("TMP", "LXR", "PRS")]
+            if bad:
+                res["fails"].append(
+                    {
+                        "clause": "unparsable_after_fix",
+                        "features": {"code": bad[0].rule_code(), "templated": True, "patch_inverted_or_spans_tag": c10.patch_sig(lf)},
+                        "detail": {"input": text, "fixed": fixed[:300], "err": bad[0].desc()[:200]},
+                        "case": one,
+                    }
+                )
+            res["nontrivial"] += 1
+            res.setdefault("sample", one)
+            res["cls"].add(digest((text, fixed)))
+    return res
+
+
+def run_case(case):
+    if case.get("k") == "tplspan":
+        return run_tplspan(case)
+    return _raw_runner(case)
